@@ -4,7 +4,7 @@
    SyncEntry.__setitem__ (move a side), SyncState.split, and every sequence of operations of the
    modelled alphabet from the empty state. *)
 From Coq Require Import NArith List Bool Arith Lia.
-From CS Require Import Sx Str PathModel PathLaws StateModel StateProofs StatePathProofs StateFolderProofs.
+From CS Require Import Sx Str PathModel PathLaws StateModel StateProofs StatePathProofs StateGuardModel StateFolderProofs.
 Import ListNotations.
 
 Ltac bind_inv' H :=
@@ -98,18 +98,6 @@ Proof.
 Qed.
 
 (* ------------------------------------------------------------------ SyncState.update_entry *)
-(* the guard of the path assignment inside update_entry, read off the state before the call:
-   (the entry is replaced by a fresh one) or not (a folder after the call, going strictly below its own path) *)
-Definition ue_guardb (E : env) (s : state) (e : eid) (sd : bool) (oid path : option str) (ot : option otype) : bool :=
-  match path, nth_error (ents s) e with
-  | Some p, Some en =>
-    if (match oid, ot with Some _, Some _ => is_discarded (e_ign en) && oip E sd && tstr path | _, _ => false end)%bool then true
-    else match (match ot with Some t => t | None => s_otype (gs en sd) end), s_path (gs en sd) with
-         | Dir, Some pp => negb (belowb (cvs E sd) pp (nps (cvs E sd) p))
-         | _, _ => true
-         end
-  | _, _ => true
-  end.
 
 Lemma otype_eqb_eq a b : otype_eqb a b = true -> a = b.
 Proof. destruct a, b; simpl; intros H; try discriminate; reflexivity. Qed.
@@ -439,17 +427,6 @@ Proof.
 Qed.
 
 (* ------------------------------------------------------------------ SyncEntry.__setitem__: dst[side] = src[side] *)
-(* the guard: if dst is a folder that already has a path on that side, the incoming path is not strictly
-   below it and, when an id comes along, the side does not take its ids from the provider (oid_is_path):
-   there a child re-keyed by _update_kids can take the incoming id, which __setitem__ then writes back *)
-Definition mv_guardb (E : env) (s : state) (dst src : eid) (sd : bool) : bool :=
-  Nat.eqb dst src ||
-  match otype_of s dst sd, path_of s dst sd with
-  | Some Dir, Some pp =>
-      (match path_of s src sd with Some p => negb (belowb (cvs E sd) pp p) | None => true end) &&
-      (match oid_of s src sd with Some _ => negb (oip E sd) | None => true end)
-  | _, _ => true
-  end.
 
 Lemma move_side_spec E s dst src sd s' :
   env_ok E -> IdxJ s -> mv_guardb E s dst src sd = true -> move_side E s dst src sd = Ok s' ->
@@ -723,24 +700,6 @@ Lemma update_eq E s sd ot oid path h ex prior :
   update E s sd ot oid path h ex prior = (y <- upd_phase1 E s sd oid path prior ;; upd_rest E sd ot oid path h ex y).
 Proof. reflexivity. Qed.
 
-(* the guard of an event, read off the state before it: for every entry the event can land on (the holder of
-   the id, the holder of the prior id, the entries filed under the path) the new path is not strictly below the
-   entry's current path if the event says "folder"; and the guard of the side move of the merge branch *)
-Definition candb (E : env) (s : state) (sd : bool) (ot : option otype) (path : option str) (e : eid) : bool :=
-  match path_of s e sd, path with
-  | Some pp, Some p =>
-    negb ((match ot with Some t => otype_eqb t Dir | None => true end) && belowb (cvs E sd) pp (nps (cvs E sd) p))
-  | _, _ => true
-  end.
-Definition ocandb (E : env) (s : state) (sd : bool) (ot : option otype) (path : option str) (x : option eid) : bool :=
-  match x with Some e => candb E s sd ot path e | None => true end.
-Definition upd_guardb (E : env) (s : state) (sd : bool) (ot : option otype) (oid path prior : option str) : bool :=
-  ocandb E s sd ot path (lookup_oid s sd oid) && ocandb E s sd ot path (lookup_oid s sd prior) &&
-  forallb (candb E s sd ot path) (lookup_path_stale s sd path) &&
-  match lookup_oid s sd prior, lookup_oid s sd oid with
-  | Some pe, Some e1 => mv_guardb E s pe e1 (negb sd)
-  | _, _ => true
-  end.
 
 Definition cand_ok (E : env) (s : state) (sd : bool) (ot : option otype) (path : option str) (e : eid) : Prop :=
   forall pp p, path_of s e sd = Some pp -> path = Some p ->
@@ -866,16 +825,6 @@ Proof.
 Qed.
 
 (* ------------------------------------------------------------------ every operation of the alphabet *)
-(* forget_oid (no caller in the engine) is outside: it detaches an entry that keeps its id, see forget_refuted *)
-Definition op_guardb (E : env) (s : state) (o : op) : bool :=
-  match o with
-  | OUpdate sd ot oid path h ex prior => upd_guardb E s sd ot oid path prior
-  | OSet e sd (FPath v) => path_guardb E s e sd v
-  | OMove d sr sd => mv_guardb E s d sr sd
-  | OUpdEnt e sd oid path h ex c ot => ue_guardb E s e sd oid path ot
-  | OForget _ _ => false
-  | _ => true
-  end.
 
 Lemma apply_op_guarded_pres E s o s' :
   env_ok E -> IdxJ s -> op_guardb E s o = true -> apply_op E s o = Ok s' -> IdxJ s'.
@@ -915,12 +864,14 @@ Proof.
   apply (IdxJ_view s); [reflexivity|exact HJ].
 Qed.
 
-(* every operation of the run satisfies its guard in the state it is applied to *)
-Fixpoint guardedb (E : env) (s : state) (l : list (op * list titem)) : bool :=
-  match l with
-  | [] => true
-  | o :: r => op_guardb E s (fst o) && match step E s o with Ok s' => guardedb E s' r | Err _ => true end
-  end.
+
+(* what the extracted guard model prints is the hypothesis of the reachability theorem *)
+Lemma guard_trace_all E : forall l s, guardedb E s l = forallb (N.eqb 1) (guard_trace E s l).
+Proof.
+  induction l as [|o l IH]; intros s; simpl; [reflexivity|].
+  destruct (op_guardb E s (fst o)); simpl; [|reflexivity].
+  destruct (step E s o); [apply IH|reflexivity].
+Qed.
 
 Lemma idx_trace E : forall ops s, env_ok E -> IdxJ s -> guardedb E s ops = true ->
   forall s', In (Ok s') (trace_ops E s ops) -> IdxJ s'.
